@@ -63,7 +63,10 @@ func cmdArgs(p *lang.Process) (err error) {
 		jObj.Error = err.Error()
 		p.ExitNum = 1
 	}
-	jObj.Flags = flagsT.GetMap()
+	if flagsT != nil {
+		// ParseFlags returns no flags object alongside an error
+		jObj.Flags = flagsT.GetMap()
+	}
 
 	b, err = json.Marshal(jObj, false)
 	if err != nil {
